@@ -2,6 +2,7 @@ import XMT.Drv.Util
 import XMT.Group
 import XMT.Drv.C19
 import XMT.HostBox
+import XMT.GroupLoop
 namespace XMT.Drv.C17
 open XMT XMT.Group XMT.Drv
 
@@ -105,6 +106,49 @@ def applyOrder (es : List Entry) (order : List Nat) : Option (List Entry) :=
   if picked.length = es.length ∧ order.length = es.length ∧ order.eraseDups.length = order.length ∧
      (picked.zip picked.tail).all (fun (a, b) => a.weight ≥ b.weight) then some picked else none
 
+/-! ### s3: the connection loop composed with a multi-group profile (XMT/GroupLoop.lean) -/
+
+def resOf (c : Char) : Option Client.Res :=
+  if c = 'o' then some .ok else if c = 'e' then some .sessErr else if c = 'f' then some .fail else none
+
+def showRes : Client.Res → String
+  | .ok => "o"
+  | .sessErr => "e"
+  | .fail => "f"
+
+def showConn (c : GroupLoop.Conn) : String :=
+  let cur := match c.cur with
+    | none => "-"
+    | some p => toString p
+  s!"{if c.swArg then 1 else 0}{if c.swRes then "T" else "F"}@{cur}:{hexOrDash c.host}:{c.w}:{c.t}:{c.errs}:{showRes c.res}"
+
+def handleGloop (order ents draws script : String) : String :=
+  let ds? : Option (List Nat) := if draws = "-" then some [] else (splitOn1 draws ',').mapM natOf
+  let sc? : Option (List Client.Res) := if script = "-" then some [] else script.toList.mapM resOf
+  match parseEntries ents, ds?, sc? with
+  | some es, some ds, some sc =>
+    if ds.any (· ≥ 2^32) then "bad-op" else
+    match buildTail es with
+    | .nil => "nil"
+    | .single _ => "single"
+    | .group g =>
+      let g? : Option Group :=
+        if order = "auto" then some g
+        else match (splitOn1 order ',').mapM natOf with
+          | none => none
+          | some o => (applyOrder (es.map (·.1)) o).map fun l => { g with entries := l }
+      match g? with
+      | none => "order-bad"
+      | some g =>
+        match GroupLoop.session g ds sc with
+        | .panic _ => "panic"
+        | .ok (st, cont) =>
+          " ".intercalate (["gloop", ",".intercalate (g.entries.map (toString ·.ptr)), s!"sel={g.sel}", "|"]
+            ++ st.trace.map showConn
+            ++ ["|", s!"cont={if cont then 1 else 0}", s!"errors={st.errors}", s!"e={if st.e then 1 else 0}",
+                s!"left={st.ds.length}"])
+  | _, _, _ => "bad-op"
+
 def handle (args : List String) : String :=
   match args with
   | ["run", order, ents, ops] =>
@@ -127,6 +171,13 @@ def handle (args : List String) : String :=
     | _, _ => "bad-op"
   -- the consumer (Session.listen): the client-loop model of C19 (XMT/ClientLoop.lean)
   | "loop" :: rest => XMT.Drv.C19.handle ("loop" :: rest)
+  -- s3: the real connection loop on a real multi-group profile, scripted connector and ONE PRNG stream
+  | ["gloop", order, ents, draws, script] => handleGloop order ents draws script
+  -- s3: the zero-value Group (`new(cfg.Group)`: no entries, selector byte `sel`)
+  | ["gempty", sel, ops] =>
+    match natOf sel, (splitOn1 ops ',').mapM parseOp with
+    | some sel, some ops => " ".intercalate (["gempty", "|"] ++ runGroup { cur := none, entries := [], sel := sel } ops)
+    | _, _ => "bad-op"
   -- the host container of the `ews && implant` build (XMT/HostBox.lean): `hb <op>…` with ops
   -- `s:<hex>` Set, `w:<hex16>` Wrap with the given PRNG bytes, `u` Unwrap, `g` String()
   | "hb" :: ops =>
